@@ -14,7 +14,7 @@ Lemma census_C13_parallel_parallel_Do_ok : census_C13_parallel_parallel_Do =
   [("call:.Add", 1);
    ("call:.Done", 1);
    ("call:.Wait", 1);
-   ("call:atomic.AddInt32", 1);
+   ("call:atomic.AddInt64", 1);
    ("call:runtime.GOMAXPROCS", 1);
    ("go", 1)].
 Proof. reflexivity. Qed.
@@ -24,7 +24,7 @@ Lemma census_C13_parallel_parallel_DoContext_ok : census_C13_parallel_parallel_D
   [("call:.Err", 2);
    ("call:.Go", 1);
    ("call:.Wait", 1);
-   ("call:atomic.AddInt32", 1);
+   ("call:atomic.AddInt64", 1);
    ("call:errgroup.WithContext", 1);
    ("call:runtime.GOMAXPROCS", 1)].
 Proof. reflexivity. Qed.
@@ -44,14 +44,14 @@ Definition census_expected_C13 : Prop :=
   [("call:.Add", 1);
    ("call:.Done", 1);
    ("call:.Wait", 1);
-   ("call:atomic.AddInt32", 1);
+   ("call:atomic.AddInt64", 1);
    ("call:runtime.GOMAXPROCS", 1);
    ("go", 1)]
   /\ census_C13_parallel_parallel_DoContext =
   [("call:.Err", 2);
    ("call:.Go", 1);
    ("call:.Wait", 1);
-   ("call:atomic.AddInt32", 1);
+   ("call:atomic.AddInt64", 1);
    ("call:errgroup.WithContext", 1);
    ("call:runtime.GOMAXPROCS", 1)]
   /\ census_C13_parallel_parallel_Map =
